@@ -123,30 +123,51 @@ func famHole(i, shift int) []wk.LL {
 	return []wk.LL{wk.G(b+2, shift+3), wk.G(b+2, shift+6), wk.G(b+5, shift+6)}
 }
 
-func (c famCase) pathID(sch wk.IDScheme, j, poly, npaths int) b6.FeatureID {
-	v := j
-	if c.order == 1 {
-		v = npaths - 1 - j
-	}
-	ns := sch.PathNS
+// pathNS: which namespace path j (counted over the area, in polygon order) of
+// polygon poly lives in: 0 = the scheme's path namespace, 1, 2 = the foreign ones.
+func (c famCase) pathNS(j, poly int) int {
 	switch c.nspat {
 	case 1:
-		if j%2 == 1 {
-			ns = famAltNS1
-		}
+		return j % 2
 	case 2:
-		if poly%2 == 1 {
-			ns = famAltNS1
-		}
+		return poly % 2
 	case 3:
-		switch j % 3 {
-		case 1:
-			ns = famAltNS1
-		case 2:
-			ns = famAltNS2
+		return j % 3
+	}
+	return 0
+}
+
+// pathVal: which of the scheme's ID values path j takes.
+func (c famCase) pathVal(j, npaths int) int {
+	if c.order == 1 {
+		return npaths - 1 - j
+	}
+	return j
+}
+
+func (c famCase) pathID(sch wk.IDScheme, j, poly, npaths int) b6.FeatureID {
+	ns := []string{sch.PathNS, famAltNS1, famAltNS2}[c.pathNS(j, poly)]
+	return wk.PathID(ns, sch.W(c.pathVal(j, npaths)).Value)
+}
+
+// key is canonical for the spec: parameters that do not show in the world built
+// (namespace pattern, ID order and path geometry of an area without paths, ...)
+// are left out, the others are reduced to what they assign to each path.
+func (c famCase) key() string {
+	npaths := c.npaths()
+	geom := c.geom
+	if npaths == 0 {
+		geom = 0
+	}
+	var assign []int
+	j := 0
+	for poly, k := range c.kinds {
+		for n := 0; n < map[polyKind]int{kR1: 1, kR2: 2}[k]; n++ {
+			assign = append(assign, c.pathNS(j, poly), c.pathVal(j, npaths))
+			j++
 		}
 	}
-	return wk.PathID(ns, sch.W(v).Value)
+	return fmt.Sprintf("%v|%d|%d|%v|%d", c.kinds, c.comp, geom, assign, c.scheme)
 }
 
 // Spec builds the world: points, paths, then the area(s).
@@ -246,20 +267,28 @@ func kindSequences(nkinds, k int) [][]polyKind {
 	return out
 }
 
+// famBound: nkinds[k] = number of leading polygon kinds used for areas of k polygons (0 = no such areas).
 type famBound struct {
-	maxK, nkinds, ncomp, ngeom, nns int
+	nkinds            [5]int
+	ncomp, ngeom, nns int
 }
 
 func famBoundFor(tier string) famBound {
 	if tier == "thorough" {
-		return famBound{maxK: 4, nkinds: 4, ncomp: 2, ngeom: 2, nns: 4}
+		return famBound{nkinds: [5]int{0, 0, 4, 4, 3}, ncomp: 2, ngeom: 2, nns: 4}
 	}
-	return famBound{maxK: 3, nkinds: 3, ncomp: 2, ngeom: 1, nns: 2}
+	return famBound{nkinds: [5]int{0, 0, 3, 3, 0}, ncomp: 2, ngeom: 1, nns: 2}
 }
 
 func (b famBound) String() string {
-	return fmt.Sprintf("areas of 2..%d polygons, every sequence over {%s}, x {%s} x {%s} x path namespaces {%s} x {%s}",
-		b.maxK, strings.Join(kindNames[:b.nkinds], ","), strings.Join(famCompNames[:b.ncomp], ","), strings.Join(famGeomNames[:b.ngeom], ","),
+	var ks []string
+	for k, n := range b.nkinds {
+		if n > 0 {
+			ks = append(ks, fmt.Sprintf("%d polygons: every sequence over {%s}", k, strings.Join(kindNames[:n], ",")))
+		}
+	}
+	return fmt.Sprintf("areas of %s; x {%s} x {%s} x path namespaces {%s} x {%s}",
+		strings.Join(ks, ", "), strings.Join(famCompNames[:b.ncomp], ","), strings.Join(famGeomNames[:b.ngeom], ","),
 		strings.Join(famNSNames[:b.nns], ","), strings.Join(famOrderNames, ","))
 }
 
@@ -271,8 +300,11 @@ func familyCases(tier string, schemes []int) []famCase {
 	b := famBoundFor(tier)
 	var out []famCase
 	seen := map[string]bool{}
-	for k := 2; k <= b.maxK; k++ {
-		seqs := kindSequences(b.nkinds, k)
+	for k, nkinds := range b.nkinds {
+		if nkinds == 0 {
+			continue
+		}
+		seqs := kindSequences(nkinds, k)
 		for comp := 0; comp < b.ncomp; comp++ {
 			for geom := 0; geom < b.ngeom; geom++ {
 				for nspat := 0; nspat < b.nns; nspat++ {
@@ -280,7 +312,7 @@ func familyCases(tier string, schemes []int) []famCase {
 						for _, seq := range seqs {
 							for _, s := range schemes {
 								c := famCase{kinds: seq, comp: comp, geom: geom, nspat: nspat, order: order, scheme: s}
-								key := c.Spec().String()
+								key := c.key()
 								if seen[key] {
 									continue
 								}
